@@ -158,6 +158,7 @@ type session struct {
 	fdAtReturn int
 	returned   int32
 
+	delayByPush   bool // the delayed direction is parked pushing into the peer's full output channel (no hook marker)
 	srvObservable bool // the server still reads: it will see the relay's close as EOF/reset
 	cliAlive      bool
 	srvAlive      bool // server can still write
@@ -229,6 +230,16 @@ func pushBlocked(g vh.G) bool {
 
 func peerPush(g vh.G) bool {
 	return g.HasFrame(".updateWindow") || g.HasFrame(".updateInitialWindowSize") || g.HasFrame(".sendQueuedFramesUnderWindowSize")
+}
+
+func (s *session) countPeerPushBlocked() int {
+	n := 0
+	for _, g := range relayGoroutines(s.base) {
+		if pushBlocked(g) && peerPush(g) {
+			n++
+		}
+	}
+	return n
 }
 
 func (s *session) countPushBlocked() int {
@@ -676,6 +687,9 @@ func (s *session) establishBlocked(delay int) ([2]string, bool) {
 // direction (sometimes both): one frame in the writer's hand + 15 in the
 // channel, optionally with the reader parked on a further push.
 func (s *session) establishChanFull(delay int) bool {
+	if s.rng.Intn(2) == 0 {
+		return s.establishChanFullViaPeer(delay)
+	}
 	id, ok := s.openStream()
 	if !ok {
 		return false
@@ -753,8 +767,89 @@ func (s *session) establishChanFull(delay int) bool {
 	return true
 }
 
+// establishChanFullViaPeer fills the output channel of direction F from the
+// *peer's* reader: F's DATA is first queued behind a zero stream window, the
+// writers are gated, then F's receiver opens the window. The peer direction
+// (which reads that WINDOW_UPDATE) flushes the backlog into F's output: one
+// frame in F's writer's hand, 15 in the channel, and the peer's reader parks on
+// the 17th push, holding F's flowMu. That push is *in progress* when the
+// terminating event happens. If the delayed direction is the peer, it is
+// delayed by that parked push (no hook marker is possible); if it is F, F's
+// reader is parked at the hook point as usual.
+func (s *session) establishChanFullViaPeer(delay int) bool {
+	f := s.rng.Intn(2)
+	peer := 1 - f
+	rcv, snd := s.receiver(f), s.sender(f)
+	acks := rcv.Snapshot().SettingsAcks
+	if err := rcv.Settings(http2.Setting{ID: http2.SettingInitialWindowSize, Val: 0}); err != nil {
+		return s.fail("chan-full/peer: settings: %v", err)
+	}
+	if !snd.Wait(func(o *Obs) bool { return o.LastIWS == 0 }) {
+		return s.fail("chan-full/peer: INITIAL_WINDOW_SIZE=0 was not relayed to the %s", snd.Name)
+	}
+	if !rcv.Wait(func(o *Obs) bool { return o.SettingsAcks > acks }) {
+		return s.fail("chan-full/peer: no SETTINGS ACK at the %s", rcv.Name)
+	}
+	id, ok := s.openStream()
+	if !ok {
+		return false
+	}
+	q := 40 + s.rng.Intn(25)
+	before := rcv.Snapshot().TotalData
+	for j := 0; j < q; j++ {
+		if err := snd.Data(id, false, s.payload(100)); err != nil {
+			return s.fail("chan-full/peer: data: %v", err)
+		}
+	}
+	p, err := s.ping(snd)
+	if err != nil {
+		return s.fail("chan-full/peer: ping: %v", err)
+	}
+	if !rcv.Wait(func(o *Obs) bool { return o.Pings[p] > 0 }) {
+		return s.fail("chan-full/peer: barrier ping did not arrive at the %s", rcv.Name)
+	}
+	if got := rcv.Snapshot().TotalData; got != before {
+		return s.fail("chan-full/peer: %d DATA frames passed a zero window", got-before)
+	}
+	s.gates.ArmWriters()
+	// the receiver opens the window: stream WINDOW_UPDATE, or SETTINGS raising the initial window
+	flush := "window-update"
+	if s.rng.Intn(3) == 0 {
+		flush = "settings-raising-window"
+		err = rcv.Settings(http2.Setting{ID: http2.SettingInitialWindowSize, Val: 1 << 20})
+	} else {
+		err = rcv.WindowUpdate(id, 1<<20)
+	}
+	if err != nil {
+		return s.fail("chan-full/peer: flush: %v", err)
+	}
+	if !WaitFor(func() bool { return s.gates.WritersWaiting() >= 1 }) {
+		return s.fail("chan-full/peer: writer hook point never reached")
+	}
+	if !WaitFor(func() bool { return s.countPeerPushBlocked() >= 1 }) {
+		return s.fail("chan-full/peer: the %s reader never parked pushing into the peer's output", DirName(peer))
+	}
+	if got := rcv.Snapshot().TotalData; got != before {
+		return s.fail("chan-full/peer: %d DATA frames passed the gated writer", got-before)
+	}
+	if w := s.gates.WritersWaiting(); w != 1 {
+		return s.fail("chan-full/peer: %d writers parked, want exactly 1", w)
+	}
+	s.delayByPush = delay == peer
+	s.res.Params["filled_dirs"] = DirName(f)
+	s.res.Params["filled_by"] = "peer reader (" + DirName(peer) + ") flushing a flow-control backlog on " + flush
+	s.res.Params["frames_behind_gated_writer"] = q
+	s.res.Params["readers_parked_on_push"] = 1
+	return true
+}
+
 // armDelay parks direction dir at the reader point holding a marker frame.
 func (s *session) armDelay(dir int, blocked [2]string) bool {
+	if s.delayByPush {
+		// established by establishChanFullViaPeer: observed parked in the goroutine dump
+		s.res.Params["delay_marker"] = "parked-on-push-into-peer-output"
+		return true
+	}
 	src := s.sender(dir)
 	s.gates.ArmDelay(dir)
 	kind := "ping"
